@@ -6,6 +6,7 @@ import (
 	"math"
 
 	geom "github.com/twpayne/go-geom"
+	"github.com/twpayne/go-geom/bigxy"
 	"github.com/twpayne/go-geom/encoding/ewkb"
 	"github.com/twpayne/go-geom/encoding/ewkbhex"
 	"github.com/twpayne/go-geom/encoding/geojson"
@@ -13,6 +14,9 @@ import (
 	"github.com/twpayne/go-geom/encoding/wkbcommon"
 	"github.com/twpayne/go-geom/encoding/wkbhex"
 	"github.com/twpayne/go-geom/encoding/wkt"
+	"github.com/twpayne/go-geom/xy"
+	"github.com/twpayne/go-geom/xy/lineintersector"
+	"github.com/twpayne/go-geom/xyz"
 
 	"verifharness/fw"
 	"verifharness/model"
@@ -260,9 +264,10 @@ func codecNoise(c *fw.Ctx) {
 
 // heldSlot is a result object of an earlier case that is still referenced.
 type heldSlot struct {
-	desc string
-	snap func() string
-	want string
+	desc     string
+	snap     func() string
+	want     string
+	scribble func()
 }
 
 var heldSlots = map[string]*heldSlot{}
@@ -272,6 +277,14 @@ var heldSlots = map[string]*heldSlot{}
 // said when it was returned - later calls of the library must not have written
 // into it), then the new one takes its place.
 func holdAndRecheck(c *fw.Ctx, key, desc string, snap func() string) bool {
+	return holdRecheckScribble(c, key, desc, snap, nil)
+}
+
+// holdRecheckScribble is holdAndRecheck for results that are plain data the
+// caller owns: when the held object is let go it is first overwritten with
+// junk (scribble), as a caller recycling its memory would.  Results returned
+// later are judged by their oracles as always - they must not be made of that memory.
+func holdRecheckScribble(c *fw.Ctx, key, desc string, snap func() string, scribble func()) bool {
 	ok := true
 	if h := heldSlots[key]; h != nil {
 		var now string
@@ -282,12 +295,85 @@ func holdAndRecheck(c *fw.Ctx, key, desc string, snap func() string) bool {
 				ok = false
 			}
 		}
+		if h.scribble != nil {
+			c.Guard("panic", h.scribble)
+			c.Count("held_results_overwritten_by_the_caller_when_let_go")
+		}
 	}
 	var w string
 	if c.Guard("panic", func() { w = snap() }) {
 		delete(heldSlots, key)
 		return false
 	}
-	heldSlots[key] = &heldSlot{desc: desc, snap: snap, want: w}
+	heldSlots[key] = &heldSlot{desc: desc, snap: snap, want: w, scribble: scribble}
 	return ok
+}
+
+// negZeros rewrites, in one flat array in four, about half of the zero X and Y
+// ordinates as -0: the same numbers, other bit patterns.  It reports whether it
+// did.  Oracles work on the numbers and are not affected.
+func negZeros(r *fw.Rand, flat []float64, stride int) bool {
+	if stride < 2 || !r.Chance(1, 4) {
+		return false
+	}
+	did := false
+	for i := 0; i+1 < len(flat); i += stride {
+		for k := 0; k < 2; k++ {
+			if flat[i+k] == 0 && r.Bool() {
+				flat[i+k] = math.Copysign(0, -1)
+				did = true
+			}
+		}
+	}
+	return did
+}
+
+// xyRefusedCalls calls the planar functions on arguments they cannot do anything
+// sensible with (no points, one ordinate, odd array lengths, too-short rings,
+// nil).  Several of them panic as the code stands; the caller recovers and
+// carries on.  Nothing is judged here: the point is that the ordinary call
+// judged next must not see anything such a call left behind.
+func xyRefusedCalls(c *fw.Ctx) {
+	try := func(f func()) {
+		defer func() {
+			if recover() != nil {
+				c.Count("refused_xy_calls_that_panicked")
+			}
+		}()
+		f()
+	}
+	short := geom.Coord{1}
+	p, q := geom.Coord{1, 2}, geom.Coord{3, 4}
+	odd := []float64{0, 0, 4, 0, 4}
+	tri := []float64{0, 0, 4, 0, 0, 0}
+	for _, l := range []geom.Layout{geom.XY, geom.XYZ} {
+		try(func() { xy.LocatePointInRing(l, p, nil) })
+		try(func() { xy.LocatePointInRing(l, short, tri) })
+		try(func() { xy.IsPointInRing(l, p, odd) })
+		try(func() { xy.IsOnLine(l, p, nil) })
+		try(func() { xy.IsOnLine(l, p, odd[:2]) })
+		try(func() { xy.IsRingCounterClockwise(l, tri) })
+		try(func() { xy.IsRingCounterClockwise(l, nil) })
+		try(func() { xy.SignedArea(l, odd) })
+		try(func() { xy.ConvexHullFlat(l, nil) })
+		try(func() { xy.ConvexHullFlat(l, odd) })
+		try(func() { xy.DistanceFromPointToLineString(l, p, nil) })
+		try(func() { xy.DistanceFromPointToLineString(l, short, odd) })
+		try(func() { xy.PointsCentroidFlat(l, nil) })
+		try(func() { xy.PointsCentroidFlat(l, odd) })
+	}
+	try(func() { xy.SimplifyFlatCoords(odd, 1, 2) })
+	try(func() { xy.SimplifyFlatCoords(tri, 1, 0) })
+	try(func() { xy.SimplifyFlatCoords(nil, -1, 2) })
+	try(func() { xy.DistanceFromPointToLine(short, p, q) })
+	try(func() { xy.DistanceFromLineToLine(p, q, short, nil) })
+	try(func() { xy.OrientationIndex(p, short, q) })
+	try(func() { bigxy.OrientationIndex(nil, p, q) })
+	try(func() { lineintersector.LineIntersectsLine(lineintersector.RobustLineIntersector{}, p, q, short, p) })
+	try(func() { lineintersector.LineIntersectsLine(lineintersector.NonRobustLineIntersector{}, p, nil, q, p) })
+	try(func() { lineintersector.PointIntersectsLine(lineintersector.RobustLineIntersector{}, short, p, q) })
+	try(func() { xyz.DistanceLineToLine(p, q, p, q) })
+	try(func() { xyz.DistancePointToLine(short, p, q) })
+	try(func() { xyz.Distance(p, short) })
+	c.Count("refused_xy_calls_before_a_judged_one")
 }
